@@ -1,0 +1,216 @@
+//go:build verif
+
+package badger
+
+import (
+	"fmt"
+	"sort"
+
+	"github.com/dgraph-io/badger/v4/table"
+	"github.com/dgraph-io/badger/v4/y"
+)
+
+// Thin test-driver entry points for the /verif correspondence harness (engine "gc", property
+// C15: value-log garbage collection). They only call production code.
+
+// VPEntry is an LSM entry together with its raw value pointer (when it has one).
+type VPEntry struct {
+	VEntry
+	IsPtr  bool
+	Fid    uint32
+	Offset uint32
+	Len    uint32
+}
+
+func (db *DB) verifPEntry(key []byte, vs y.ValueStruct) VPEntry {
+	e := VPEntry{VEntry: db.verifEntry(key, vs)}
+	if vs.Meta&bitValuePointer > 0 {
+		var vp valuePointer
+		vp.Decode(vs.Value)
+		e.IsPtr, e.Fid, e.Offset, e.Len = true, vp.Fid, vp.Offset, vp.Len
+	}
+	return e
+}
+
+// VerifLevelsPtr is VerifLevels with the value pointers.
+func VerifLevelsPtr(db *DB) [][][]VPEntry {
+	out := make([][][]VPEntry, len(db.lc.levels))
+	for i, lh := range db.lc.levels {
+		lh.RLock()
+		tables := make([]*table.Table, len(lh.tables))
+		copy(tables, lh.tables)
+		for _, t := range tables {
+			t.IncrRef()
+		}
+		lh.RUnlock()
+		for _, t := range tables {
+			var es []VPEntry
+			it := t.NewIterator(0)
+			for it.Rewind(); it.Valid(); it.Next() {
+				es = append(es, db.verifPEntry(it.Key(), it.Value()))
+			}
+			it.Close()
+			_ = t.DecrRef()
+			out[i] = append(out[i], es)
+		}
+	}
+	return out
+}
+
+// VerifLevelIDs: the table ids of every level in slice order (parallel to VerifLevelsPtr).
+func VerifLevelIDs(db *DB) [][]uint64 {
+	out := make([][]uint64, len(db.lc.levels))
+	for i, lh := range db.lc.levels {
+		lh.RLock()
+		for _, t := range lh.tables {
+			out[i] = append(out[i], t.ID())
+		}
+		lh.RUnlock()
+	}
+	return out
+}
+
+// VerifMemPtr: the active memtable followed by the immutable ones (newest first).
+func VerifMemPtr(db *DB) [][]VPEntry {
+	tables, decr := db.getMemTables()
+	defer decr()
+	var out [][]VPEntry
+	for _, mt := range tables {
+		var es []VPEntry
+		it := mt.sl.NewUniIterator(false)
+		for it.Rewind(); it.Valid(); it.Next() {
+			es = append(es, db.verifPEntry(it.Key(), it.Value()))
+		}
+		it.Close()
+		out = append(out, es)
+	}
+	return out
+}
+
+// VerifGetAtPtr is DB.get at an arbitrary read timestamp, with the raw pointer.
+func VerifGetAtPtr(db *DB, key []byte, ts uint64) (VPEntry, bool, error) {
+	vs, err := db.get(y.KeyWithTs(key, ts))
+	if err != nil {
+		return VPEntry{}, false, err
+	}
+	if vs.Value == nil && vs.Meta == 0 {
+		return VPEntry{}, false, nil
+	}
+	return db.verifPEntry(y.KeyWithTs(key, vs.Version), vs), true, nil
+}
+
+// VVlogState: which value-log files the DB knows about.
+type VVlogState struct {
+	MaxFid            uint32
+	Fids              []uint32 // keys of filesMap, ascending
+	ToBeDeleted       []uint32 // filesToBeDeleted, in order
+	IterCount         int
+	NumEntriesWritten uint32
+	WOffset           uint32
+}
+
+func VerifVlogState(db *DB) VVlogState {
+	v := &db.vlog
+	v.filesLock.RLock()
+	defer v.filesLock.RUnlock()
+	st := VVlogState{MaxFid: v.maxFid, IterCount: v.iteratorCount(), NumEntriesWritten: v.numEntriesWritten,
+		WOffset: v.woffset()}
+	for fid := range v.filesMap {
+		st.Fids = append(st.Fids, fid)
+	}
+	sort.Slice(st.Fids, func(i, j int) bool { return st.Fids[i] < st.Fids[j] })
+	st.ToBeDeleted = append(st.ToBeDeleted, v.filesToBeDeleted...)
+	return st
+}
+
+// VVlogRec is one record of a value-log file as logFile.iterate yields it.
+type VVlogRec struct {
+	Key       []byte
+	Version   uint64
+	Meta      byte
+	UserMeta  byte
+	ExpiresAt uint64
+	Value     []byte
+	Offset    uint32
+	Len       uint32
+}
+
+// VerifVlogRecords iterates one value-log file with the iterator GC uses.
+func VerifVlogRecords(db *DB, fid uint32) ([]VVlogRec, error) {
+	v := &db.vlog
+	v.filesLock.RLock()
+	lf, ok := v.filesMap[fid]
+	v.filesLock.RUnlock()
+	if !ok {
+		return nil, fmt.Errorf("file with ID: %d not found", fid)
+	}
+	var out []VVlogRec
+	lf.lock.RLock()
+	defer lf.lock.RUnlock()
+	_, err := lf.iterate(true, 0, func(e Entry, vp valuePointer) error {
+		out = append(out, VVlogRec{Key: y.Copy(y.ParseKey(e.Key)), Version: y.ParseTs(e.Key), Meta: e.meta,
+			UserMeta: e.UserMeta, ExpiresAt: e.ExpiresAt, Value: y.Copy(e.Value), Offset: vp.Offset, Len: vp.Len})
+		return nil
+	})
+	return out, err
+}
+
+// VerifVlogPick is pickLog: the file RunValueLogGC(ratio) would rewrite (0: none).
+func VerifVlogPick(db *DB, ratio float64) uint32 {
+	lf := db.vlog.pickLog(ratio)
+	if lf == nil {
+		return 0
+	}
+	return lf.fid
+}
+
+// VerifDiscardStats: the per-file discard counters, by file id.
+func VerifDiscardStats(db *DB) map[uint32]int64 {
+	out := map[uint32]int64{}
+	ds := db.vlog.discardStats
+	ds.Lock()
+	ds.Iterate(func(fid, val uint64) { out[uint32(fid)] = int64(val) })
+	ds.Unlock()
+	return out
+}
+
+// VerifGCRewrite runs the GC of one chosen file the way runGC does after pickLog: one rewrite at a
+// time (garbageCh), doRunGC (rewrite + discard-stats reset). rewrite itself asserts fid < maxFid
+// (log.Fatalf); the wrapper refuses such a call instead.
+func VerifGCRewrite(db *DB, fid uint32) error {
+	v := &db.vlog
+	select {
+	case v.garbageCh <- struct{}{}:
+		defer func() { <-v.garbageCh }()
+		v.filesLock.RLock()
+		lf, ok := v.filesMap[fid]
+		maxFid := v.maxFid
+		v.filesLock.RUnlock()
+		if !ok {
+			return fmt.Errorf("file with ID: %d not found", fid)
+		}
+		if fid >= maxFid {
+			return ErrNoRewrite
+		}
+		return v.doRunGC(lf)
+	default:
+		return ErrRejected
+	}
+}
+
+// VerifSetGCPauseHook installs the function rewrite calls between its scan and its write-back
+// (the DB's own vlogGCPauseHook field).
+func VerifSetGCPauseHook(db *DB, f func()) { db.vlogGCPauseHook = f }
+
+// VerifGcClamp: (gcActive, gcDiscardTs).
+func VerifGcClamp(db *DB) (bool, uint64) { return db.gcActive.Load(), db.gcDiscardTs.Load() }
+
+// VerifItemPtr: the value pointer an Item holds (ok=false for inline values).
+func VerifItemPtr(item *Item) (fid, offset uint32, ok bool) {
+	if item.meta&bitValuePointer == 0 || len(item.vptr) == 0 {
+		return 0, 0, false
+	}
+	var vp valuePointer
+	vp.Decode(item.vptr)
+	return vp.Fid, vp.Offset, true
+}
